@@ -17,18 +17,19 @@ Proof. reflexivity. Qed.
 Theorem C04_clean_after_src : forall p sc, wellbehaved gen_variant p sc = true -> clean (snd (conn_call gen_variant p sc)) = true.
 Proof. exact (conn_clean_after gen_variant). Qed.
 
+(* with the source's guards EVERY next call gets its own response: no side condition on it *)
 Theorem C04_next_call_correct_src : forall hist p sc, Forall (wb gen_variant) hist ->
-  run_seq gen_variant conn0 (hist ++ [(p, sc)]) = map (own gen_variant) hist ++ [Obs (run_pipe (norm gen_variant sc p) sc)].
-Proof. exact (next_call_own gen_variant). Qed.
+  run_seq gen_variant conn0 (hist ++ [(p, sc)]) = map own hist ++ [Obs (run_pipe p sc)].
+Proof. intros hist p sc H. apply (next_call_own gen_variant hist p sc H). apply checks_no_uncaught. rewrite variant_tie. reflexivity. Qed.
 
 Theorem C04_no_stuck_src : forall p sc, wellbehaved gen_variant p sc = true -> ~ In EBlocked (fst (conn_call gen_variant p sc)).
-Proof. intros p sc H. rewrite conn_call_obs. exact (wb_no_blocked gen_variant p sc H). Qed.
+Proof. intros p sc H. rewrite (conn_call_obs _ _ _ (wb_no_uncaught _ _ _ H)). exact (wb_no_blocked gen_variant p sc H). Qed.
 
 (* what the two guards buy, stated over the source's variant (these break on a source without them) *)
 Theorem C04_no_uncaught_fault_src : forall sp producer h, eff_init gen_variant sp producer h <> IDead.
 Proof.
   intros sp producer h. rewrite variant_tie. unfold eff_init. cbn [checks_stream_result v_repaired].
-  destruct (ires sp); try discriminate. destruct h; destruct (hdr sp); discriminate.
+  destruct (init_outcome (negb producer) sp h); [destruct (ires sp)|]; discriminate.
 Qed.
 
 Theorem C04_unary_clean_src : forall u c, clean (snd (conn_call gen_variant (PUnary u) (SUnary c))) = true.
